@@ -12,11 +12,260 @@ theorem rangeVerdict_sound {op : BinOp} {i : Nat} {k lo hi : Int} {b : Bool}
   unfold rangeVerdict at h
   by_cases hi0 : i = 0
   · subst hi0
-    cases op <;> simp at h ⊢ <;> simp [cmpZ] <;> (try split at h) <;> (try split at h) <;> (try split at h) <;>
-      simp_all <;> (first | omega | trace_state; sorry)
+    cases op <;> simp only [cmpZ] <;> simp at h <;> obtain ⟨hk, h⟩ := h <;> (repeat' split at h) <;>
+      (first
+        | (simp at h; done)
+        | (simp only [Option.some.injEq] at h; subst h; simp; omega)
+        | (simp only [Option.some.injEq] at h; subst h; simp; constructor <;> intro <;> omega)
+        | (simp only [Option.some.injEq] at h; subst h; rfl)
+        | (exact h.2.symm)
+        | (obtain ⟨h, rfl⟩ := h; simp; omega))
   · have : (i == 0) = false := by simpa using hi0
     simp only [this, hi0, if_false] at h ⊢
-    cases op <;> simp at h ⊢ <;> simp [cmpZ] <;> (try split at h) <;> (try split at h) <;> (try split at h) <;>
-      simp_all <;> omega
+    cases op <;> simp only [cmpZ] <;> simp at h <;> obtain ⟨hk, h⟩ := h <;> (repeat' split at h) <;>
+      (first
+        | (simp at h; done)
+        | (simp only [Option.some.injEq] at h; subst h; simp; omega)
+        | (simp only [Option.some.injEq] at h; subst h; simp; constructor <;> intro <;> omega)
+        | (simp only [Option.some.injEq] at h; subst h; rfl)
+        | (exact h.2.symm)
+        | (obtain ⟨h, rfl⟩ := h; simp; omega))
+
+/-- the interval computed from a value type covers the C type with that value type, and {0,1} for `bool` -/
+theorem typeInterval_covers {tvt : VT} {vvt : Option VT} {lo hi : Int} (h : typeInterval tvt vvt = some (lo, hi)) :
+    lo ≤ 0 ∧ 0 ≤ hi ∧ (tvt.sign ≠ .signed → 1 ≤ hi) ∧ ∀ t : Ty, toVT t = tvt → ∀ x, inRange t x → lo ≤ x ∧ x ≤ hi := by
+  obtain ⟨sg, ty⟩ := tvt
+  have key : ∀ (t : Ty), toVT t = ⟨sg, ty⟩ → (t.signed = true ↔ sg = .signed) ∧ (t.signed = false ↔ sg = .unsigned) ∧ ty = t.rank.idx + 1 := by
+    intro t ht
+    obtain ⟨r, s⟩ := t
+    simp only [toVT, VT.mk.injEq] at ht
+    obtain ⟨rfl, rfl⟩ := ht
+    cases s <;> simp
+  match ty, h, key with
+  | 0, h, key =>
+    cases sg <;> simp [typeInterval, typeBits] at h <;> obtain ⟨rfl, rfl⟩ := h <;>
+      (refine ⟨by simp, by simp, by simp, fun t ht => ?_⟩; have := (key t ht).2.2; omega)
+  | 1, h, key =>
+    cases sg <;> simp [typeInterval, typeBits] at h <;> obtain ⟨rfl, rfl⟩ := h <;>
+      (refine ⟨by simp, by simp, by simp, fun t ht x hx => ?_⟩
+       obtain ⟨k1, k2, k3⟩ := key t ht
+       obtain ⟨r, s⟩ := t
+       cases r <;> simp [Rank.idx] at k3
+       cases s <;> simp at k1 k2 <;> simp [inRange, tmin, tmax, Ty.bits, Rank.bits] at hx ⊢ <;> omega)
+  | 2, h, key =>
+    cases sg <;> simp [typeInterval, typeBits] at h <;> obtain ⟨rfl, rfl⟩ := h <;>
+      (refine ⟨by simp, by simp, by simp, fun t ht x hx => ?_⟩
+       obtain ⟨k1, k2, k3⟩ := key t ht
+       obtain ⟨r, s⟩ := t
+       cases r <;> simp [Rank.idx] at k3
+       cases s <;> simp at k1 k2 <;> simp [inRange, tmin, tmax, Ty.bits, Rank.bits] at hx ⊢ <;> omega)
+  | 3, h, key =>
+    cases sg <;> simp [typeInterval, typeBits] at h <;> obtain ⟨rfl, rfl⟩ := h <;>
+      (refine ⟨by simp, by (try split) <;> simp, by (try split) <;> simp, fun t ht x hx => ?_⟩
+       obtain ⟨k1, k2, k3⟩ := key t ht
+       obtain ⟨r, s⟩ := t
+       cases r <;> simp [Rank.idx] at k3
+       cases s <;> simp at k1 k2 <;> simp [inRange, tmin, tmax, Ty.bits, Rank.bits] at hx ⊢ <;> (try split) <;> omega)
+  | 4, h, _ => simp [typeInterval, typeBits] at h
+  | 5, h, _ => simp [typeInterval, typeBits] at h
+  | n + 6, h, _ => simp [typeInterval, typeBits] at h
+
+theorem annOK_bin {S a op l r} (h : annOK S (.bin a op l r) = true) : annOK S l = true ∧ annOK S r = true := by
+  simp only [annOK, Bool.and_eq_true] at h
+  exact ⟨h.1.1.1, h.1.1.2⟩
+
+/-- values of a token whose value type is `vtOK` lie in the interval computed from that value type -/
+theorem vtOK_interval {S ρ e tvt vvt lo hi Y} (hv : vtOK S e = true) (ht : e.ann.vt = some tvt)
+    (hi' : typeInterval tvt vvt = some (lo, hi)) (he : eval S ρ e = some Y) : lo ≤ 0 ∧ 0 ≤ hi ∧ lo ≤ Y ∧ Y ≤ hi := by
+  obtain ⟨c1, c2, c3, c4⟩ := typeInterval_covers hi'
+  refine ⟨c1, c2, ?_⟩
+  simp only [vtOK, ht, Bool.or_eq_true, Bool.and_eq_true, beq_iff_eq, bne_iff_ne] at hv
+  rcases hv with hv | ⟨⟨_, hsg⟩, hb⟩
+  · exact c4 _ hv.symm Y (eval_inRange S ρ e Y he)
+  · have := c3 hsg
+    rcases (isBoolVal_eval hb he).1 with rfl | rfl <;> omega
+
+theorem outOfRange_sound {S ρ a op l r v b}
+    (hc : op.isCmp = true) (g : annOK S (.bin a op l r) = true) (hs : cmpSafe S (.bin a op l r) = true)
+    (hvl : vtOK S l = true) (hvr : vtOK S r = true)
+    (h : outOfRange op 0 l r = some b ∨ outOfRange op 1 r l = some b)
+    (he : eval S ρ (.bin a op l r) = some v) : v = b2i b := by
+  obtain ⟨gl, gr⟩ := annOK_bin g
+  rcases h with h | h
+  · unfold outOfRange at h
+    split at h
+    · rename_i kiv tvt hk ht
+      split at h
+      · simp at h
+      · split at h
+        · simp at h
+        · split at h
+          · simp at h
+          · rename_i lo hi hint
+            obtain ⟨X, Y, hX, hY, e, cX, _⟩ := cmp_exact hs hc (Or.inl (by simp [hk])) he
+            have q := known_eq gl hk hX cX
+            obtain ⟨b1, b2, b3, b4⟩ := vtOK_interval hvr ht hint hY
+            have := rangeVerdict_sound h b1 b2 Y b3 b4
+            simp only [if_true] at this
+            rw [e, ← q, this]
+    · simp at h
+  · unfold outOfRange at h
+    split at h
+    · rename_i kiv tvt hk ht
+      split at h
+      · simp at h
+      · split at h
+        · simp at h
+        · split at h
+          · simp at h
+          · rename_i lo hi hint
+            obtain ⟨X, Y, hX, hY, e, _, cY⟩ := cmp_exact hs hc (Or.inr (by simp [hk])) he
+            have q := known_eq gr hk hY cY
+            obtain ⟨b1, b2, b3, b4⟩ := vtOK_interval hvl ht hint hX
+            have := rangeVerdict_sound h b1 b2 X b3 b4
+            simp only [Nat.succ_ne_zero, if_false] at this
+            rw [e, ← q, this]
+    · simp at h
+
+theorem and_absorb (p a : Nat) : a &&& (p &&& a) = p &&& a := by
+  rw [Nat.and_comm p a, ← Nat.and_assoc, Nat.and_self]
+
+theorem or_absorb (p a : Nat) : a ||| (p ||| a) = p ||| a := by
+  rw [Nat.or_comm p a, ← Nat.or_assoc, Nat.or_self]
+
+/-- `comparison()`: `(X & num1) op num2` -/
+theorem bitAnd_verdict_sound {op : BinOp} {uns : Bool} {n1 n2 : Int} {b : Bool}
+    (h : bitCmpVerdict .band op uns n1 n2 = some b) (h2 : 0 ≤ n2) (p : Nat) :
+    cmpZ op ((p &&& n1.toNat : Nat) : Int) n2 = b := by
+  unfold bitCmpVerdict at h
+  split at h
+  · simp at h
+  · rename_i hn1
+    have hle : ((p &&& n1.toNat : Nat) : Int) ≤ n1 := by
+      have := @Nat.and_le_right p n1.toNat
+      omega
+    have hne : (n1.toNat &&& n2.toNat) ≠ n2.toNat → ((p &&& n1.toNat : Nat) : Int) ≠ n2 := by
+      intro q e
+      apply q
+      have e' : p &&& n1.toNat = n2.toNat := by omega
+      rw [← e', and_absorb]
+    cases op <;> simp at h <;> simp only [cmpZ]
+    case eq => obtain ⟨q, rfl⟩ := h; have := hne q; simp [this]
+    case ne => obtain ⟨q, rfl⟩ := h; have := hne q; simp [this]
+    case lt => obtain ⟨q, h⟩ := h; have hb : b = true := by first | exact h | (rw [← h]; rfl)
+               subst hb; simp; omega
+    case ge => obtain ⟨q, rfl⟩ := h; simp; omega
+    case le => obtain ⟨q, rfl⟩ := h; simp; omega
+    case gt => obtain ⟨q, h⟩ := h; have hb : b = false := by first | exact h | (rw [← h]; rfl)
+               subst hb; simp; omega
+
+/-- `comparison()`: `(X | num1) op num2`, first operand of the `|` unsigned -/
+theorem bitOr_verdict_sound {op : BinOp} {n1 n2 : Int} {b : Bool}
+    (h : bitCmpVerdict .bor op true n1 n2 = some b) (h2 : 0 ≤ n2) (p : Nat) :
+    cmpZ op ((p ||| n1.toNat : Nat) : Int) n2 = b := by
+  unfold bitCmpVerdict at h
+  split at h
+  · simp at h
+  · rename_i hn1
+    have hle : n1 ≤ ((p ||| n1.toNat : Nat) : Int) := by
+      have := @Nat.right_le_or p n1.toNat
+      omega
+    have hne : (n1.toNat ||| n2.toNat) ≠ n2.toNat → ((p ||| n1.toNat : Nat) : Int) ≠ n2 := by
+      intro q e
+      apply q
+      have e' : p ||| n1.toNat = n2.toNat := by omega
+      rw [← e', or_absorb]
+    cases op <;> simp at h <;> simp only [cmpZ]
+    case eq => obtain ⟨q, rfl⟩ := h; have := hne q; simp [this]
+    case ne => obtain ⟨q, rfl⟩ := h; have := hne q; simp [this]
+    case lt => obtain ⟨q, h⟩ := h; have hb : b = false := by first | exact h | (rw [← h]; rfl)
+               subst hb; simp; omega
+    case ge => obtain ⟨q, rfl⟩ := h; simp; omega
+    case le => obtain ⟨q, h⟩ := h; have hb : b = false := by first | exact h | (rw [← h]; rfl)
+               subst hb; simp; omega
+    case gt => obtain ⟨q, h⟩ := h; have hb : b = true := by first | exact h | (rw [← h]; rfl)
+               subst hb; simp; omega
+
+theorem inRange_uac_nonneg_right (ta tb : Ty) (v : Int) (h : inRange tb v) (h0 : 0 ≤ v) :
+    inRange (uac ta tb) v ∧ v < 2 ^ (uac ta tb).bits := by
+  obtain ⟨ra, sa⟩ := ta
+  obtain ⟨rb, sb⟩ := tb
+  cases ra <;> cases sa <;> cases rb <;> cases sb <;>
+    simp [uac, promote, Rank.idx, tInt, inRange, tmin, tmax, Ty.bits, Rank.bits] at * <;> omega
+
+theorem inRange_uac_nonneg_left (ta tb : Ty) (v : Int) (h : inRange ta v) (h0 : 0 ≤ v) :
+    inRange (uac ta tb) v ∧ v < 2 ^ (uac ta tb).bits := by
+  rw [uac_comm]; exact inRange_uac_nonneg_right tb ta v h h0
+
+theorem toI64_nonneg (t : Ty) (v : Int) (h : inRange t v) (h0 : 0 ≤ toI64 v) : toI64 v = v := by
+  obtain ⟨r, s⟩ := t
+  cases r <;> cases s <;> simp [inRange, tmin, tmax, Ty.bits, Rank.bits, toI64] at * <;> omega
+
+/-- `X & n` with a non-negative constant `n` in either position -/
+theorem band_const {T : Ty} {A n : Int} (hr : inRange T n ∧ n < 2 ^ T.bits) (h0 : 0 ≤ n) :
+    ∃ p : Nat, wrap T (Int.ofNat (pat T A &&& pat T n)) = ((p &&& n.toNat : Nat) : Int) ∧
+               wrap T (Int.ofNat (pat T n &&& pat T A)) = ((p &&& n.toNat : Nat) : Int) := by
+  have hp : pat T n = n.toNat := by
+    unfold pat
+    rw [Int.emod_eq_of_lt h0 hr.2]
+  refine ⟨pat T A, ?_⟩
+  have hle := @Nat.and_le_right (pat T A) n.toNat
+  have hin : inRange T ((pat T A &&& n.toNat : Nat) : Int) := by
+    obtain ⟨⟨h1, h2⟩, _⟩ := hr
+    constructor
+    · have : tmin T ≤ 0 := by unfold tmin; split <;> simp; exact Int.pow_nonneg (by decide)
+      omega
+    · omega
+  rw [hp, Nat.and_comm n.toNat]
+  exact ⟨wrap_of_inRange _ _ hin, wrap_of_inRange _ _ hin⟩
+
+/-- value of a number token with a non-negative `toBigNumber` -/
+theorem lit_num {S ρ an sp n1 Y} (g : annOK S (.lit an sp) = true) (hn : an.num = some n1) (h0 : 0 ≤ n1)
+    (h : eval S ρ (.lit an sp) = some Y) : Y = n1 ∧ inRange (S.lty sp) Y := by
+  simp only [annOK, Bool.and_eq_true, beq_iff_eq, decide_eq_true_eq] at g
+  obtain ⟨⟨⟨⟨⟨r, _⟩, k⟩, _⟩, _⟩, nk⟩ := g
+  rw [hn, k] at nk
+  simp only [Option.some.injEq] at nk
+  simp only [eval, Option.some.injEq] at h
+  rw [wrap_of_inRange _ _ r] at h
+  subst h
+  rw [nk] at h0
+  exact ⟨by rw [nk, toI64_nonneg _ _ r h0], r⟩
+
+/-- `comparison()` on `(x & n1) op r` / `(n1 & x) op r` with the Known value on the right: the verdict holds -/
+theorem bitand_cmp_sound {S ρ a op a' x an sp l r v n1 n2 b uns}
+    (hl : l = .bin a' .band x (.lit an sp) ∨ l = .bin a' .band (.lit an sp) x)
+    (hc : op.isCmp = true) (g : annOK S (.bin a op l r) = true) (hs : cmpSafe S (.bin a op l r) = true)
+    (hk : r.ann.known = some n2) (hn2 : 0 ≤ n2) (hnum : an.num = some n1)
+    (hv : bitCmpVerdict .band op uns n1 n2 = some b)
+    (he : eval S ρ (.bin a op l r) = some v) : v = b2i b := by
+  obtain ⟨gl, gr⟩ := annOK_bin g
+  obtain ⟨X, Y, hX, hY, e, _, cY⟩ := cmp_exact hs hc (Or.inr (by simp [hk])) he
+  have q := known_eq gr hk hY cY
+  have hn1 : 0 ≤ n1 := by
+    unfold bitCmpVerdict at hv
+    split at hv
+    · simp at hv
+    · omega
+  have hp : ∃ p : Nat, X = ((p &&& n1.toNat : Nat) : Int) := by
+    rcases hl with rfl | rfl
+    · obtain ⟨A, B, hA, hB, hv'⟩ := eval_bin_cop (by rfl) hX
+      obtain ⟨_, glit⟩ := annOK_bin gl
+      obtain ⟨rfl, rB⟩ := lit_num glit hnum hn1 hB
+      simp only [evalBin, BinOp.isShift, Bool.false_eq_true, if_false, Option.some.injEq] at hv'
+      have hr := inRange_uac_nonneg_right (tyOf S x) (tyOf S (.lit an sp)) B (by simpa [tyOf] using rB) hn1
+      rw [wrap_of_inRange _ _ hr.1] at hv'
+      obtain ⟨p, hp, _⟩ := @band_const _ (wrap (uac (tyOf S x) (tyOf S (.lit an sp))) A) B hr hn1
+      exact ⟨p, by rw [← hv', hp]⟩
+    · obtain ⟨A, B, hA, hB, hv'⟩ := eval_bin_cop (by rfl) hX
+      obtain ⟨glit, _⟩ := annOK_bin gl
+      obtain ⟨rfl, rA⟩ := lit_num glit hnum hn1 hA
+      simp only [evalBin, BinOp.isShift, Bool.false_eq_true, if_false, Option.some.injEq] at hv'
+      have hr := inRange_uac_nonneg_left (tyOf S (.lit an sp)) (tyOf S x) A (by simpa [tyOf] using rA) hn1
+      rw [wrap_of_inRange _ _ hr.1] at hv'
+      obtain ⟨p, _, hp⟩ := @band_const _ (wrap (uac (tyOf S (.lit an sp)) (tyOf S x)) B) A hr hn1
+      exact ⟨p, by rw [← hv', hp]⟩
+  obtain ⟨p, rfl⟩ := hp
+  rw [e, ← q, bitAnd_verdict_sound hv hn2 p]
 
 end Cppcheck.CondExpr
